@@ -204,8 +204,10 @@ def r03_2(prog, rep):
         if isinstance(x, dict) and x.get("k") == "decl":
             for d in x["ds"]:
                 ini = d.get("init")
-                if ini is not None and lv(cfg.resolve(ini)).endswith("->ev[i]") and d["t"] == "echs_event_t":
+                m_ = re.search(r"->ev\[([A-Za-z_][\w$]*)\]$", lv(cfg.resolve(ini))) if ini is not None else None
+                if m_ and d["t"] == "echs_event_t":
                     body = (b, d["n"])
+                    scan_i = m_.group(1)
     if body is None:
         raise AnalysisBroken("next_evmux: scan loop over the cache not found")
     bb, ecur = body
@@ -282,10 +284,10 @@ def r03_2(prog, rep):
         if not a:
             got = "keep" if cname != "null" else "skip"
         elif a[0] == "replace":
-            got = "replace" if "replace-index:i" in a else "replace-without-index"
+            got = "replace" if "replace-index:" + scan_i in a else "replace-without-index"
         elif a and a[0].startswith("pop:"):
             idx = a[0].split(":")[1]
-            if a == ["pop:%s" % idx, "repeek:%s" % idx, "cache:%s" % idx] and idx == "i":
+            if a == ["pop:%s" % idx, "repeek:%s" % idx, "cache:%s" % idx] and idx == scan_i:
                 got = "consume-duplicate"
             else:
                 got = "pop-mispaired %s" % a
@@ -341,43 +343,67 @@ def _strm_index(f, b, c):
 
 def _scan_coverage(prog, rep, rid, f, bb, best):
     cfg = f.cfg
-    # all loops whose condition is `i < this->ns`
+    # the scans: loops `v < this->ns` whose body reads the cached event this->ev[v]
     loops = cfg.natural_loops()
     scans = []
     for h, blks in loops.items():
         c = cfg.cond(h)
         if c is None:
             continue
-        atoms = cond_atoms(c, True)
-        if any(len(a) == 5 and a[0] == "<" and a[1] == "i" and a[2].endswith("->ns") for a in atoms):
-            scans.append(h)
+        for a in cond_atoms(c, True):
+            if len(a) == 5 and a[0] == "<" and a[2].endswith("->ns") and re.fullmatch(r"[A-Za-z_][\w$]*", a[1]):
+                v = a[1]
+                reads = False
+                for b in blks:
+                    for e in cfg.blocks[b].elems:
+                        for l, kind, n in writes(e["x"]):
+                            rhs = n.get("init") if kind == "decl" else (n.get("r") if n.get("k") == "bin" else None)
+                            if rhs is not None and any(nn.get("k") == "idx" and lv(nn).endswith("->ev[%s]" % v) for nn in walk(cfg.resolve(rhs))):
+                                reads = True
+                if reads:
+                    scans.append((h, v))
     if len(scans) != 2:
-        rep.fail(rid, "next_evmux/scan-loops", f.loc(), "expected two scans over i < ns (first non-null, then the rest), found %d" % len(scans))
+        rep.fail(rid, "next_evmux/scan-loops", f.loc(), "expected two scans over the cache (first non-null, then the rest), found %d" % len(scans))
         return
-    first, second = sorted(scans, reverse=True)  # clang numbers blocks backwards: higher id = earlier in source
-    # first loop is entered with i = 0
+    (first, v1), (second, v2) = sorted(scans, reverse=True)  # clang numbers blocks backwards: higher id = earlier in source
+    if second not in cfg.reach_from(first):
+        (first, v1), (second, v2) = (second, v2), (first, v1)
+    # first loop is entered with v1 = 0
     pre = [p for p in cfg.lpreds[first] if p not in loops[first]]
     init_ok = False
     for p in pre:
         for e in cfg.blocks[p].elems:
             for l, kind, n in writes(e["x"]):
-                if lv(l) == "i" and n.get("k") == "bin" and int_value(n["r"]) == 0:
+                if lv(l) == v1 and ((n.get("k") == "bin" and int_value(n["r"]) == 0) or (kind == "decl" and n.get("init") is not None and int_value(n["init"]) == 0)):
                     init_ok = True
     if init_ok:
         rep.ok(rid, "next_evmux/first-scan-from-0", f.loc(), "the search for the first non-null cached event starts at slot 0")
     else:
         rep.fail(rid, "next_evmux/first-scan-from-0", f.loc(), "the first scan does not start at slot 0: leading streams are ignored")
-    # between the loops i is only incremented by one
+    # the second scan starts one past the slot the first one stopped at: `v1++`, or `v2 = w + 1` with w = v1 or a copy taken at the break
+    copies = {v1}
+    for b in cfg.blocks:        # the copy is taken in the break block, which is not part of the natural loop
+        for e in cfg.blocks[b].elems:
+            for l, kind, n in writes(e["x"]):
+                if n.get("k") == "bin" and n["op"] == "=" and lv(strip_casts(cfg.resolve(n["r"]))) == v1:
+                    copies.add(lv(l))
     pre2 = [p for p in cfg.lpreds[second] if p not in loops[second]]
     ok = False
     for p in pre2:
-        ws = [(lv(l), kind, n) for e in cfg.blocks[p].elems for l, kind, n in writes(e["x"]) if lv(l) == "i"]
-        if len(ws) == 1 and ws[0][1] == "incdec" and "++" in ws[0][2]["op"]:
+        ws = [(lv(l), kind, n) for e in cfg.blocks[p].elems for l, kind, n in writes(e["x"]) if lv(l) == v2]
+        if len(ws) != 1:
+            continue
+        if v2 == v1 and ws[0][1] == "incdec" and "++" in ws[0][2]["op"]:
             ok = True
+        rhs = ws[0][2].get("init") if ws[0][1] == "decl" else (ws[0][2].get("r") if ws[0][2].get("k") == "bin" and ws[0][2]["op"] == "=" else None)
+        if rhs is not None:
+            r = strip_casts(cfg.resolve(rhs))
+            if r.get("k") == "bin" and r["op"] == "+" and int_value(r["r"]) == 1 and lv(strip_casts(r["l"])) in copies:
+                ok = True
     if ok:
         rep.ok(rid, "next_evmux/second-scan-continues", f.loc(), "the second scan continues at the slot after the first non-null one")
     else:
-        rep.fail(rid, "next_evmux/second-scan-continues", f.loc(), "the second scan does not continue at i + 1")
+        rep.fail(rid, "next_evmux/second-scan-continues", f.loc(), "the second scan does not continue at the slot after the first hit")
     # end of stream: `i >= ns` test between the scans guards the nul return
     eos = None
     for b in cfg.blocks:
@@ -385,7 +411,7 @@ def _scan_coverage(prog, rep, rid, f, bb, best):
         if c is None or b in loops[first] or b in loops[second]:
             continue
         for a in cond_atoms(c, True):
-            if len(a) == 5 and a[0] == "<=" and a[2] == "i" and a[1].endswith("->ns"):
+            if len(a) == 5 and a[0] == "<=" and a[2] == v1 and a[1].endswith("->ns"):
                 eos = b
     if eos is None:
         rep.fail(rid, "next_evmux/end-only-when-all-null", f.loc(), "no `i >= ns` test guards the end-of-stream return")
@@ -417,7 +443,7 @@ def _scan_coverage(prog, rep, rid, f, bb, best):
                 r = strip_casts(cfg.resolve(n["r"]))
                 if r.get("k") == "call":
                     prim.append((t.split("->ev[")[1].rstrip("]"), r.get("fn"), _strm_index(f, b, r)))
-    if ("j", PEEK, "j") in prim:
+    if any(fn_ == PEEK and a_ == c_ and a_ not in ({v1, v2} | copies) for a_, fn_, c_ in prim):
         rep.ok(rid, "next_evmux/priming", f.loc(), "the cache is primed by peeking stream j into slot j")
     else:
         rep.fail(rid, "next_evmux/priming", f.loc(), "cache priming is not ev[j] = peek(s[j]): %s" % prim)
